@@ -152,6 +152,11 @@ fn cmd_strategy(profile: u8) -> BoxedStrategy<Vec<String>> {
         (1, (hash_key(profile), field_s(), field_s()).prop_map(|(k, f, f2)| vec!["HDEL".into(), k, f, f2]).boxed()),
         (2, (hash_key(profile), field_s(), prop_oneof![Just("1"), Just("-4")])
             .prop_map(|(k, f, n)| vec!["HINCRBY".into(), k, f, n.to_string()]).boxed()),
+        // reads interleaved with the writes (they reach the actor through the same `execute`
+        // and must neither emit a delta nor change what is served)
+        (3, (any_key(profile), prop_oneof![Just("GET"), Just("HGETALL"), Just("EXISTS"), Just("TYPE"), Just("TTL"), Just("STRLEN")])
+            .prop_map(|(k, c)| vec![c.to_string(), k]).boxed()),
+        (1, (any_key(profile), field_s()).prop_map(|(k, f)| vec!["HGET".into(), k, f]).boxed()),
     ];
     proptest::strategy::Union::new_weighted(arms.into_iter().filter(|(w, _)| *w > 0).collect())
     .boxed()
@@ -503,6 +508,15 @@ impl<'a, 'b> Net<'a, 'b> {
         let opt_val = |o: &str| -> Option<i64> {
             args.iter().position(|a| a.eq_ignore_ascii_case(o)).and_then(|p| args.get(p + 1)).and_then(|v| v.parse().ok())
         };
+        let is_read = matches!(name.as_str(), "GET" | "HGETALL" | "EXISTS" | "TYPE" | "TTL" | "STRLEN" | "HGET");
+        if is_read {
+            self.ctx.label("cmd:read");
+            if !deltas.is_empty() {
+                return Err(self.fail(format!("n{} {}: a read command emitted a delta", node + 1, argv.join(" "))));
+            }
+            self.key(&cmd_keys[0]);
+            return Ok(());
+        }
         for k in &cmd_keys {
             let ki = self.key(k);
             if !(is_plain_set || name == "DEL") || reply.is_error() {
